@@ -430,11 +430,19 @@ func (g *Gen) externalWrites(fn *ssa.Function, ws *WriteSet) {
 		n, seq := encHeaps(g)
 		ws.Names[n] = true
 		ws.Names[seq] = true
+	case "encoding/xml.Marshal", "encoding/xml.MarshalIndent":
+		n, seq, out := marshalHeaps(g)
+		ws.Names[n] = true
+		ws.Names[seq] = true
+		ws.Names[out] = true
 	case "os.MkdirAll", "os.Create", "archive/zip.NewWriter", "(*archive/zip.Writer).Create", "(*archive/zip.Writer).Close", "(*os.File).Close":
 		fail, open, count, zdom, zdata, zentry := ioHeaps(g)
 		for _, h := range []string{fail, open, count, zdom, zdata, zentry} {
 			ws.Names[h] = true
 		}
+	case "(*archive/zip.File).Open", "io.ReadAll":
+		src, unread := zipReadHeaps(g)
+		ws.Names[src], ws.Names[unread] = true, true
 	case "fmt.Sscanf", "fmt.Sscan":
 		ws.Names[g.TE.CellHeap(types.Typ[types.Int])] = true
 		ws.Names[g.TE.CellHeap(types.Typ[types.Float64])] = true
@@ -539,6 +547,10 @@ func (g *Gen) loopWrites(fn *ssa.Function, li *loopInfo) *WriteSet {
 					if !star {
 						continue
 					}
+				}
+				if cal.String() == "io.ReadAll" {
+					// allocates and fills a fresh byte array: inside a loop the cell heap gets a new version per iteration
+					ws.Names[g.TE.CellHeap(types.Universe.Lookup("byte").Type())] = true
 				}
 				ws.add(g.WriteSetOf(cal))
 			}
